@@ -358,7 +358,7 @@ func run(c *core.Ctx) {
 		}
 	}
 	r := c.Rng("gen")
-	n := c.N(150000, 5000000) / c.NShards
+	n := c.N(600000, 10000000) / c.NShards
 	for i := 0; i < n; i++ {
 		switch r.Intn(4) {
 		case 0, 1:
